@@ -228,7 +228,8 @@ class Exec:
                         else:
                             self.viol("decreased:%s" % fn, "%s[%s].%s went from %r to %r while present" % (fn, d, f, lv, got[d][f]))
                     newlast[(d, f)] = got[d][f]
-            self.hidden_by_totals = set()
+            if fn == "disk":
+                self.hidden_by_totals = set()
             self.last[fn] = newlast      # devices absent at this observation start afresh
         elif nowrap:
             # totals call: devices that are absent now start afresh; partitions are merely not listed
